@@ -565,8 +565,15 @@ __gmp_doprnt (const struct doprnt_funs_t *funs, void *data,
                 }
               else
                 {
-                  /* don't allow negative precision */
-                  param.prec = MAX (0, n);
+                  /* as in C, a negative precision is taken as if the
+                     precision were omitted */
+                  if (n < 0)
+                    {
+                      seen_precision = 0;
+                      param.prec = 6;
+                    }
+                  else
+                    param.prec = n;
                 }
             }
             break;
